@@ -563,7 +563,8 @@ int main()
    while(std::getline(std::cin, line))
    {
       const size_t p = line.find('|');
-      if (p != std::string::npos) run_case(k, line.substr(0, p), line.substr(p+1));
+      if ((p == 1)&&(line[0] == 'S')) {printf("%d srv\n", k); fflush(stdout);}   // a case of the server-level harness (pulse_srv_h.cpp)
+      else if (p != std::string::npos) run_case(k, line.substr(0, p), line.substr(p+1));
       k++;
    }
    return 0;
